@@ -547,6 +547,7 @@ func (pb *c15Pub) run(stop chan struct{}, frame *int64, wg *sync.WaitGroup) {
 			}
 		}
 		pb.sentAt[n] = time.Now()
+		pb.pub.RC.Conn.SetWriteDeadline(time.Now().Add(6 * time.Second))
 		err := pb.pub.RC.Send(ref.RtmpMsg{Csid: csidFor(m.Type), TypeID: m.Type, StreamID: pb.pub.Msid, Ts: m.Ts, Payload: m.Payload}, 0)
 		pb.sendDur[n] = time.Since(pb.sentAt[n])
 		if err != nil {
@@ -564,6 +565,16 @@ func (pb *c15Pub) run(stop chan struct{}, frame *int64, wg *sync.WaitGroup) {
 }
 
 func c15Run(c *fw.Ctx, i int) {
+	// odd cases: the write timeout (10 s) is longer than the liveness sweep (2 s), so it is the
+	// sweep that disposes a consumer whose writer is blocked; even cases: the 1 s write timeout
+	// closes it first
+	wto := c15WriteTimeoutMs
+	if i%2 == 1 {
+		wto = 10000
+	}
+	httpflv.SubSessionWriteTimeoutMs = wto
+	httpts.SubSessionWriteTimeoutMs = wto
+	rtmp.VerifSetServerWriteParams(c15Queue, wto)
 	base3 := i / 3
 	k := []int{1, 4, 16}[i%3]
 	r := c.Rng
@@ -574,7 +585,13 @@ func c15Run(c *fw.Ctx, i int) {
 		c.Inconclusive("server start: %v", err)
 		return
 	}
-	defer s.Stop()
+	defer func() {
+		s.Stop()
+		if s.Wedged {
+			c.RestartChild = true
+			c.Violate("deadlock/dispose", "the server did not shut down within 10 s after the run with stalled consumers (Dispose blocked on its locks)\n"+goroutineSummary(), nil)
+		}
+	}()
 
 	var plans []c15Plan
 	stallPoints := []int{0, 1, 300, 5000, 40000, 150000}
@@ -592,7 +609,7 @@ func c15Run(c *fw.Ctx, i int) {
 		p.SlowSleepMs = 2 + r.Intn(19)
 		plans = append(plans, p)
 	}
-	c.Describe("k=%d plans=%+v", k, plans)
+	c.Describe("k=%d write_timeout_ms=%d plans=%+v", k, wto, plans)
 
 	nMedia := c15DisconnectFrames + c15MinFrames + 1500
 	pubs := []*c15Pub{{name: "a"}, {name: "b"}}
@@ -786,12 +803,23 @@ func c15Run(c *fw.Ctx, i int) {
 		if pb.err != nil {
 			// lal's liveness sweep (every 2 s here) is entitled to drop a publisher that itself
 			// stopped sending for that long: only a publisher that kept sending counts
-			var maxGap time.Duration
+			var maxGap, maxSend time.Duration
 			n := int(atomic.LoadInt64(&pb.sent))
-			for k := 1; k < n; k++ {
-				if g := pb.sentAt[k].Sub(pb.sentAt[k-1]); g > maxGap {
+			for k := 1; k <= n && k < len(pb.sentAt); k++ {
+				if pb.sentAt[k].IsZero() {
+					break
+				}
+				// time between the end of one send and the start of the next: the harness's own pause
+				if g := pb.sentAt[k].Sub(pb.sentAt[k-1].Add(pb.sendDur[k-1])); g > maxGap {
 					maxGap = g
 				}
+				if pb.sendDur[k] > maxSend {
+					maxSend = pb.sendDur[k]
+				}
+			}
+			if maxSend > c15DelayBound {
+				c.Violate("delay/publisher-blocked", fmt.Sprintf("the publisher of stream %s was blocked for %v inside one send (lal stopped reading from it) while consumers were stalled: %v", pb.name, maxSend, pb.err), plans)
+				return
 			}
 			if maxGap > 1500*time.Millisecond {
 				c.Inconclusive("publisher %s paused for %v by itself (loaded machine or pacing) and was dropped by the liveness sweep", pb.name, maxGap)
@@ -1205,7 +1233,7 @@ func init() {
 		Setup:       c15Setup,
 		Batches:     func(string) int { return 18 },
 		CaseTimeout: func(string) time.Duration { return 3 * time.Minute },
-		Rule: "whole-server runs with write queues of 64 entries, write timeouts of 1000 ms and the liveness sweep every 2 s. Two RTMP publishers send tagged H.264+AAC frames (6–30 KB video, ≤313 B audio) at ≤500 frames/s to streams a and b; healthy RTMP and HTTP-FLV witnesses time-stamp every frame. k ∈ {1,4,16} consumers join over RTMP, HTTP-FLV, WS-FLV, HTTP-TS, RTSP interleaved and WS-RTSP and stop reading for good / read 4–32 KiB every 2–20 ms (0.2 … 16 MB/s against ≈3.4 MB/s published per stream) / stop for 0.3–2.5 s and resume (the kernel absorbs ≈2.8 MB ≈ 0.9 s before the 64-entry queue starts to fill), from a seeded byte offset (0 … 300 000). Oracles: (1) every frame published after the witnesses joined reaches them, in order, with latency, publisher send time and pacing wait ≤ 3 s (control window before the consumers join must be ≤ 0.5 s, else inconclusive); (2) a consumer that never reads again gets sub_stop within 4000 publisher frames (each ≥ 2 ms) of stalling and its socket reaches EOF; (3) all bytes a stalled consumer read parse with the reference HTTP/FLV/WebSocket/TS/RTMP-chunk/interleaved parsers, every audio/video unit is byte-identical to a published message and units are in publish order (gaps allowed), TS packets stay 188-aligned with known PIDs, every WS-RTSP frame holds exactly one interleaved packet, RTP sequence numbers only move forward; a trailing partial unit is accepted only on a connection the server closed. cell = protocol × plan × k.",
+		Rule: "whole-server runs with write queues of 64 entries, write timeouts of 1000 ms (even cases; closes a blocked writer first) or 10 000 ms (odd cases; the 2 s liveness sweep disposes it while its writer is blocked). Two RTMP publishers send tagged H.264+AAC frames (6–30 KB video, ≤313 B audio) at ≤500 frames/s to streams a and b; healthy RTMP and HTTP-FLV witnesses time-stamp every frame. k ∈ {1,4,16} consumers join over RTMP, HTTP-FLV, WS-FLV, HTTP-TS, RTSP interleaved and WS-RTSP and stop reading for good / read 4–32 KiB every 2–20 ms (0.2 … 16 MB/s against ≈3.4 MB/s published per stream) / stop for 0.3–2.5 s and resume (the kernel absorbs ≈2.8 MB ≈ 0.9 s before the 64-entry queue starts to fill), from a seeded byte offset (0 … 300 000). Oracles: (1) every frame published after the witnesses joined reaches them, in order, with latency, publisher send time and pacing wait ≤ 3 s (control window before the consumers join must be ≤ 0.5 s, else inconclusive); (2) a consumer that never reads again gets sub_stop within 4000 publisher frames (each ≥ 2 ms) of stalling and its socket reaches EOF; (3) all bytes a stalled consumer read parse with the reference HTTP/FLV/WebSocket/TS/RTMP-chunk/interleaved parsers, every audio/video unit is byte-identical to a published message and units are in publish order (gaps allowed), TS packets stay 188-aligned with known PIDs, every WS-RTSP frame holds exactly one interleaved packet, RTP sequence numbers only move forward; a trailing partial unit is accepted only on a connection the server closed. cell = protocol × plan × k.",
 		Assumptions: []string{"loopback TCP; the server-side send buffer is the kernel default (no hook), so the queue-full instants depend on kernel buffering", "delay bound 3 s and disconnect bound 2×(timeout+sweep)+3 s are this check's reading of 'a small bound'"},
 		MinCells: 6,
 		Run:      c15Run,
